@@ -3,13 +3,60 @@ package main
 
 import (
 	"fmt"
+	"strconv"
 	"strings"
 
 	"bfeverif/harness/internal/vh"
 	"github.com/bfenetworks/bfe/bfe_tls"
 )
 
+// genDec: one CBC record through the real halfConn.decrypt: `dec <vers> <n> <plaintext hex>`.
+func genDec(r *vh.Rand) string {
+	vers := []uint16{0x0300, 0x0301, 0x0301, 0x0302, 0x0303}[r.Intn(5)]
+	n := r.Range(0, 45)
+	t := 16 - (n+20)%16 // padding region length, 1..16, plus whole blocks
+	switch r.Intn(6) {
+	case 0:
+		t += 16
+	case 1:
+		t += 16 * r.Range(1, 16)
+	}
+	p := r.Bytes(n + 20 + t)
+	tail := p[n+20:]
+	for i := range tail {
+		tail[i] = byte(t - 1)
+	}
+	switch r.Intn(8) {
+	case 0, 1: // contents wrong, length byte right (valid for SSL 3.0 only)
+		for i := 0; i < t-1; i++ {
+			if r.Chance(1, 2) {
+				tail[i] = byte(r.Intn(256))
+			}
+		}
+		if t > 1 {
+			tail[r.Intn(t-1)] ^= byte(1 + r.Intn(255))
+		}
+	case 2: // first padding byte wrong
+		tail[0] ^= byte(1 + r.Intn(255))
+	case 3: // length byte announces a shorter padding
+		if t > 1 {
+			q := r.Intn(t - 1)
+			for i := 0; i <= q; i++ {
+				tail[t-1-i] = byte(q)
+			}
+		}
+	case 4: // length byte announces more than the padding region / the record
+		tail[t-1] = byte(t - 1 + r.Range(1, 40))
+	case 5:
+		tail[t-1] = byte(r.Intn(256))
+	}
+	return fmt.Sprintf("dec %04x %d %s", vers, n, vh.Hex(p))
+}
+
 func gen(r *vh.Rand) string {
+	if r.Chance(1, 3) {
+		return genDec(r)
+	}
 	var n int
 	switch r.Intn(10) {
 	case 0:
@@ -64,6 +111,22 @@ func gen(r *vh.Rand) string {
 
 func exec(op string) string {
 	f := strings.Fields(op)
+	if len(f) == 4 && f[0] == "dec" {
+		v, ok1 := vh.UnHex(f[1])
+		p, ok2 := vh.UnHex(f[3])
+		n, err := strconv.Atoi(f[2])
+		if !ok1 || !ok2 || err != nil || len(v) != 2 {
+			return "bad-op"
+		}
+		ok, outLen := bfe_tls.VerifC43DecryptCBC(uint16(v[0])<<8|uint16(v[1]), n, p)
+		if outLen == -1 {
+			return "bad-op"
+		}
+		if ok {
+			return fmt.Sprintf("1 %d", outLen)
+		}
+		return "0"
+	}
 	if len(f) != 2 || (f[0] != "rp" && f[0] != "rp30") {
 		return "bad-op"
 	}
